@@ -25,6 +25,14 @@ func prims(s string) map[string]bool {
 
 func config(name string) pmc.Cfg {
 	c := pmc.Cfg{Name: name, MaxView: 2, Alphabet: []string{"A", "B"}, Heights: 1}
+	// "K2@v0" = configuration K2 with honest timeouts only below view 0 (i.e. none), "@v1" below view 1, ...
+	if i := strings.Index(name, "@v"); i >= 0 {
+		fmt.Sscanf(name[i+2:], "%d", &c.MaxView)
+		base := config(name[:i])
+		base.Name, base.MaxView = name, c.MaxView
+		base.Eager = strings.HasSuffix(name, "e") // "K2@v0e": eager adversary (no lazy-delivery reduction)
+		return base
+	}
 	switch name {
 	case "K1": // 4 equal, Byzantine = leader of view 1
 		c.C, c.Byz = kit.EqualCommittee(4), []int{1}
@@ -100,20 +108,28 @@ func plan(prop, tier string) []run {
 		if !q {
 			k, bud = 6000, 60*time.Second
 		}
-		for _, c := range []string{"K6", "K2", "K3"} {
-			r = append(r, run{cfg: c, menu: "M1", prims: menus["M1"], budget: bud, maxV: 2, diffK: k})
+		for _, c := range [][2]string{{"K6", "M1"}, {"K2", "M2"}, {"K3", "M1"}, {"K3b@v1", "M2"}} {
+			r = append(r, run{cfg: c[0], menu: c[1], prims: menus[c[1]], budget: bud, maxV: 2, diffK: k})
 		}
 		if prop == "C08" {
 			return r
 		}
 	}
 	if q {
-		add("K1", "M1", 0, 25*time.Second)
-		add("K2", "M2", 0, 15*time.Second)
-		add("K1", "MALL", 0, 20*time.Second)
-		add("K2", "MALL", 0, 20*time.Second)
+		add("K1", "M1", 0, 25*time.Second)      // exhaustive (~4e5 states)
+		add("K2@v0e", "M2", 0, 15*time.Second)  // equivocating proposer, eager adversary, no timeouts: exhaustive
+		add("K3b@v0e", "M2", 0, 15*time.Second) // weighted, two Byzantine members: exhaustive
+		add("K1@v1e", "M1", 0, 15*time.Second)  // eager PREPARE/COMMIT, one view change: exhaustive
+		add("K2", "M2", 0, 12*time.Second)
+		add("K1", "MALL", 0, 15*time.Second)
+		add("K2", "MALL", 0, 15*time.Second)
 		add("K6", "M7", 0, 10*time.Second)
 		return r
+	}
+	for _, k := range []string{"K2@v0e", "K3b@v0e", "K1@v1e", "K2@v1e", "K3@v1e", "K4@v0e"} {
+		for _, m := range []string{"M1", "M2", "MALL"} {
+			add(k, m, 0, 60*time.Second)
+		}
 	}
 	for _, k := range []string{"K1", "K2", "K3", "K3b", "K4", "K5", "K6"} {
 		for _, m := range []string{"M0", "M1", "M2", "M3", "M4", "M4F", "M4W", "M6", "M7"} {
@@ -190,7 +206,6 @@ func main() {
 		cfg := config(rn.cfg)
 		cfg.Prims = prims(rn.prims)
 		cfg.D = rn.d
-		cfg.Eager = rn.eager
 		cfg.C11 = *prop == "C11" || *prop == "ALL"
 		cfg.Cap = rn.cap
 		cfg.Deadline = time.Now().Add(time.Duration(float64(rn.budget) * *budgetMul))
